@@ -12,7 +12,7 @@ CLAIMED = {
           "Also proved: an item fails exactly for the enumerated prescribed errors and a file fails exactly when some item does, a tag is left unused, or the sink fails (item_error_iff, machine_err_iff). Partial: the per-directive meaning (exec_directive) is shared by machine and specification and tied to the code by the correspondence."),
  "C02": C("Theorems over every reachable state of the coordinator transition system (any in-flight task may complete next, any protocol-respecting result, any number of files): a final pass is in flight only when every reported dependency is finished, at most one task per file is in flight, finished is forever. Tie: every digraph on <=3 files (and every DAG on 4) x every input subset x every completion order through the scheduling hooks: trace, verdict and bytes against the model, outputs against a Python one-at-a-time build, stale outputs planted, snapshots taken by commands placed after the dependency directives.",
           "Coq proof (inductive coordinator invariant; frame, commutation and confluence of passes) + exhaustive controlled-schedule correspondence", "6 (C02), 12",
-          "Also proved: schedule_independence (two successful runs of the model under ANY two schedules end in the same tree, for projects without temp directives and with pairwise disjoint footprints), passes with disjoint footprints commute, a first pass reports exactly its .txtpp-backed include/after targets and never reads their outputs. Partial: schedule independence with temp directives, and equality with a one-file-at-a-time build, rest on the exhaustive sweep. Real interleavings of system calls inside overlapping workers are not modelled."),
+          "Also proved: schedule_independence (two successful runs of the model under ANY two schedules end in the same tree, for projects with pairwise disjoint footprints; schedule_independence_temps extends it to projects with temp directives under the static hypothesis sched_ok_temps), passes with disjoint footprints commute, a first pass reports exactly its .txtpp-backed include/after targets and never reads their outputs. Partial: schedule independence with temp directives, and equality with a one-file-at-a-time build, rest on the exhaustive sweep. Real interleavings of system calls inside overlapping workers are not modelled."),
  "C03": C("Theorems: no task completes twice, done/total counters are exact, the number of tasks is bounded by 2*files+dirs, success implies every seen file finished, and txtpp_run terminates with fuel proportional to the number of .txtpp files and directories of the initial tree (txtpp_run_terminates), for every schedule. Tie: the exhaustive graph x schedule sweep with execution-count marker files, aliased and duplicate inputs.",
           "Coq proof (invariant + termination measure) + exhaustive controlled-schedule correspondence", "6 (C03)",
           "Partial: termination of the child processes themselves is outside the model."),
@@ -29,12 +29,13 @@ CLAIMED = {
           "Also proved at pass level: build_then_clean_restores_pass (a successful final Build pass followed by a Clean pass restores the tree when nothing was lying at the output and temp targets), clean removes the output, cleaning twice equals once. Partial: the whole-run statement (several files, first passes) is established by the correspondence."),
  "C08": C("Theorems (sink level): build truncates then appends; the verdict and result of temp writes and of --needed do not depend on the old bytes at the generated path. Tie: every generated project rebuilt from pre-states with absent/exact/prefix/extended/empty/stale/non-UTF-8 content at each generated path, and rebuilt twice: verdict and whole tree must equal the build from the clean tree.",
           "Coq proof (case analysis of the sinks) + pre-state history correspondence", "6 (C08)",
-          "Also proved: a pass depends on the tree only through look-ups (pp_run_ext), a Build pass ignores what lies at its output, the frame theorem, and for whole runs stale_outputs_irrelevant(_deps): two initial trees that differ only at output paths give the same verdict, trace and coordinator state under the same schedule, and agree afterwards on every rewritten output. Partial: stale TEMP files at whole-run level and crash repair rest on the pre-state sweep and on SIGKILL histories of the real binary (25 quick / 400 thorough)."),
+          "Also proved: a pass depends on the tree only through look-ups (pp_run_ext), a Build pass ignores what lies at its output, the frame theorem, and for whole runs stale_outputs_irrelevant(_deps): two initial trees that differ only at output paths give the same verdict, trace and coordinator state under the same schedule, and agree afterwards on every rewritten output. stale_outputs_and_temps_irrelevant extends this to stale temp targets; the crash clause is proved on the model (interrupted_inside_pass_legal: a run cut after any prefix of its events has touched only footprints and left every source intact; interrupted_then_rebuild_exact: rebuilding from the interrupted tree gives the verdict, trace and tree of a build from the initial tree). Partial: the real kill and what the OS had buffered rest on SIGKILL/SIGTERM histories of the binary (25 quick / 400 thorough)."),
  "C09": C("Theorems (sink level): --needed buffers, writes nothing when the file is already the fresh text, brings a stale file to exactly the fresh text; a temp file with correct content is not rewritten in any mode. Tie: pre-states x {needed, build, verify}: needed = build byte for byte, inode+mtime of correct files unchanged, stale ones updated.",
           "Coq proof (case analysis of the sinks) + inode/mtime history correspondence", "6 (C09)",
           "Also proved at pass level: needed_pass_vs_build_pass (same verdict and same tree as a Build pass, modulo the output path on errors). Partial: the whole-run statement is established by the correspondence."),
  "C10": C("Theorems: every event of a pass (any mode, any outcome) is on the output path or on the lexical normalisation of a temp target named in the source; OS resolution equals lexical normalisation; unlogged paths keep their bytes; the output is beside the source and differs from it. Tie: full-tree snapshots (bytes, inode, mtime) with decoys, four modes: the touched set equals the model's event log.",
-          "Coq proof (event-log invariant over the item list) + full-tree snapshot correspondence", "6 (C10)"),
+          "Coq proof (event-log invariant over the item list, lifted to whole runs) + full-tree snapshot correspondence", "6 (C10)",
+          "Also proved for whole runs, any mode and schedule (run_events_allowed_legal, run_frame_legal, verify_run_untouched_legal, clean_run_events_legal): every event is on the output or a temp target of a source that was given a pass."),
  "C11": C("Theorems: a name is a source iff its last or second-to-last extension is txtpp; the three documented shapes and dotted stems map to the documented output names; candidates of an output name map back; outputs are sources only for double-txtpp names. Tie: exhaustive name sweep through is_txtpp_file/remove_txtpp, random trees x input lists x recursion x base directory: which outputs exist, verdict.",
           "Coq proof (case analysis on std::path extension semantics) + exhaustive name sweep and tree correspondence", "6 (C11)",
           "Also proved: every file given a pass is an input, was returned by an earlier scan, or was reported by an earlier first pass (txtpp_run_only_required); clean follows no dependencies. Together with inputs_are_processed / dependencies_are_processed of C03 this is the processed-set statement."),
